@@ -399,6 +399,9 @@ class MinErrorFlow():
                 self._is_solved = True # START hack to get the corrected graph                
                 corrected_graph = self.get_corrected_graph()
                 self._is_solved = False # END hack to get the corrected graph
+                # Drop the first-stage solution cached by get_solution(): the final solution
+                # must come from the second solve (and nothing is returned if that one fails)
+                self._solution = None
 
                 # Pick 30 random edges of G.edges()
                 edge_subset = [e for e in self.original_graph_copy.edges()]
